@@ -55,7 +55,7 @@ def run(rep, tier):
     #     families in exact-size windows (TLC-enumerated gadget shapes incl. cross-radix ones)
     for name, mod, sub, per in (("c03", "Core/Gen_C03", "ks", 12 if quick else 150), ("c04", "Core/Gen_C04", "xp", 12 if quick else 150),
                                 ("c05", "Core/Gen_C05", "mul", 60 if quick else 1500)):
-        path, n_all, n = kspipe.gen_descs(rep, wd, mod, mod + ("_quick" if quick else "_thorough"), name + "x", per_op=per, exact=True, weights={"keyswitch": 8, "xp": 6},
+        path, n_all, n = kspipe.gen_descs(rep, wd, mod, mod + ("_quick" if quick else "_thorough"), name + "x", per_op=per, exact=True, weights={"keyswitch": 8, "xp": 6, "glwe_from_lwe": 6},
                                           # glwe_pack_tmp_bytes only sees the result's layout: inputs laid out like the result
                                           keep=lambda x: x["op"] != "pack" or (x["bin"] == x["bout"] and x["sin"] == x["sout"]))
         events, bad = kspipe.run_and_validate(rep, wd, path, name + "x", shards=12, sub=sub, **({"trace_module": "Core/MulTrace"} if sub == "mul" else {}))
